@@ -33,17 +33,17 @@ type Node struct {
 
 // Spec describes the layout of a generated compound file.
 type Spec struct {
-	V4         bool    // 4096-byte sectors (major version 4) instead of 512
-	Root       *Node   // root storage (its Name is ignored)
-	FreeEvery  int     // leave one free sector after every n allocated data sectors (0 = none)
-	FreeMini   int     // leave one free mini sector after every n allocated mini sectors (0 = none)
-	TailFree   int     // extra free sectors kept at the end of the file (zero filled, present in the file)
-	DirFill    bool    // true: directory exactly fills its sectors (no free entry); false: at least one free entry
-	DirHoles   int     // unallocated entries placed between allocated ones
-	Interleave bool    // allocate sectors of different streams round-robin (non-contiguous chains)
-	TablesLast bool    // place FAT/DIFAT sectors after the data instead of before
-	EmptyMini  bool    // keep a miniFAT sector although no stream uses the mini stream
-	Cutoff     uint32  // mini stream cutoff (4096 when 0)
+	V4         bool   // 4096-byte sectors (major version 4) instead of 512
+	Root       *Node  // root storage (its Name is ignored)
+	FreeEvery  int    // leave one free sector after every n allocated data sectors (0 = none)
+	FreeMini   int    // leave one free mini sector after every n allocated mini sectors (0 = none)
+	TailFree   int    // extra free sectors kept at the end of the file (zero filled, present in the file)
+	DirFill    bool   // true: directory exactly fills its sectors (no free entry); false: at least one free entry
+	DirHoles   int    // unallocated entries placed between allocated ones
+	Interleave bool   // allocate sectors of different streams round-robin (non-contiguous chains)
+	TablesLast bool   // place FAT/DIFAT sectors after the data instead of before
+	EmptyMini  bool   // keep a miniFAT sector although no stream uses the mini stream
+	Cutoff     uint32 // mini stream cutoff (4096 when 0)
 }
 
 func u16(s string) []uint16 {
